@@ -39,9 +39,9 @@ def preload():
 def gen_case(rng, tier, idx):
     big = rng.choice((None, None, None, None, (-10.0, -20.0, -40.0, -5.0, -60.0), (-25.0, 30.0, -50.0, 10.0), (0.0,)))     # large magnitudes and all-zero rewards too
     if rng.random() < 0.3:
-        spec = gen_mdp_spec(rng, extreme=True, **_size(rng), proper=True, discounts=(1.0,), rewards=big or rng.choice((None, (-2.0, -1.0, -1.0, 0.0, 1.0, 0.5))))
+        spec = gen_mdp_spec(rng, extreme=True, leftover_abs=rng.random() < 0.12, **_size(rng), proper=True, discounts=(1.0,), rewards=big or rng.choice((None, (-2.0, -1.0, -1.0, 0.0, 1.0, 0.5))))
     else:
-        spec = gen_mdp_spec(rng, extreme=True, **_size(rng), proper=rng.random() < 0.5, discounts=(0.999,) if rng.random() < 0.02 else (0.5, 0.8, 0.9, 0.95, 0.99), rewards=big, uniform_actions=rng.random() < 0.25)
+        spec = gen_mdp_spec(rng, extreme=True, leftover_abs=rng.random() < 0.12, **_size(rng), proper=rng.random() < 0.5, discounts=(0.999,) if rng.random() < 0.02 else (0.5, 0.8, 0.9, 0.95, 0.99), rewards=big, uniform_actions=rng.random() < 0.25)
     h = gen_heuristic(rng)
     h['at_abs'] = abs(h['at_abs'])       # C03's heuristics never under-estimate, absorbing states (worth 0) included
     cfg = dict(heur=h, rao=rng.random() < 0.7, rno=rng.random() < 0.7, seed=rng.choice((0, 1, 2, 77, None)),
